@@ -1,5 +1,6 @@
 (* C18 - instantiation of the session model used by the correspondence run (definitions only):
-   exceptions are the harness' kinds 0..5 (kind 4 and 5 carry should_retry=True), 100 = "must commit before suspend". *)
+   exceptions are the harness' kinds 0..8 (kinds 4 and 5 carry should_retry=True; kinds 6, 7, 8 derive from BaseException only,
+   not from Exception), 100 = "must commit before suspend". *)
 From Coq Require Import List Bool Arith.
 Import ListNotations.
 Require Import PonyV.Model.C18Session.
@@ -7,6 +8,7 @@ Require Import PonyV.Model.C18Session.
 Definition in_set (l : list nat) (e : nat) : bool := existsb (Nat.eqb e) l.
 Definition sr (e : nat) : bool := in_set [4; 5] e.
 Definition must_commit_kind : nat := 100.
+Definition is_exc (e : nat) : bool := negb (in_set [6; 7; 8] e).
 
 Definition S_ (retry : nat) (allowed retryable : list nat) : sess nat := mksess nat retry (in_set allowed) (in_set retryable).
 
@@ -53,7 +55,7 @@ Definition gobs_eqb (a b : obs * bool) : bool := obs_eqb (fst a) (fst b) && Bool
 
 Definition run_stream (cf : nat) (s : sess nat) (str : list (bool * outcome nat)) : obs :=
   observe (call_stream nat sr cf s str st0).
-Definition run_prog (cf : nat) (p : prog nat) : obs := observe (run nat sr cf p st0).
+Definition run_prog (cf : nat) (p : prog nat) : obs := observe (run nat sr cf is_exc p st0).
 Definition run_gen (cf : nat) (steps : list (gstep nat)) : obs * bool := gobserve (grun_closed nat cf must_commit_kind steps st0).
 Definition run_flask (cf : nat) (passes : bool) (p : bool) (o : outcome nat) : obs :=
   observe (flask_request nat cf passes (leaf nat 0 p o) st0).
